@@ -27,12 +27,17 @@ import (
 )
 
 func init() {
-	prev := extra["C08"]
-	extra["C08"] = func(c *core.Ctx) {
-		if prev != nil {
-			prev(c)
+	// C08 owns the limit; C07's sentence "listing returns exactly the live messages" depends on it too: a store configured with 10 KiB that
+	// works with 8 evicts messages nobody removed
+	for _, id := range []string{"C08", "C07"} {
+		id := id
+		prev := extra[id]
+		extra[id] = func(c *core.Ctx) {
+			if prev != nil {
+				prev(c)
+			}
+			runC08Cfg(c)
 		}
-		runC08Cfg(c)
 	}
 }
 
